@@ -698,8 +698,18 @@ func reifyPrimitive(
 ) (reflect.Value, Error) {
 	// zero initialize value if val==nil
 	if isNil(val) {
-		v := pointerize(t, baseType, reflect.Zero(baseType))
-		return tryInitDefaults(v), nil
+		v := tryInitDefaults(pointerize(t, baseType, reflect.Zero(baseType)))
+
+		// the default is validated like a value taken from the configuration
+		if err := tryRecursiveValidate(v, opts.opts, opts.validators); err != nil {
+			var ctx context
+			var meta *Meta
+			if val != nil {
+				ctx, meta = val.Context(), val.meta()
+			}
+			return reflect.Value{}, raiseValidation(ctx, meta, "", err)
+		}
+		return v, nil
 	}
 
 	var v reflect.Value
